@@ -197,7 +197,7 @@ class ActionConfigFile(Action):
                 cfg_path: Optional[Path] = Path(value, mode=get_config_read_mode())
             except TypeError as ex_path:
                 try:
-                    if isinstance(load_value(value), str):
+                    if not isinstance(value, str) or isinstance(load_value(value), str):
                         raise ex_path
                     cfg_path = None
                     cfg_file = parser.parse_string(value, **kwargs)
